@@ -2,6 +2,7 @@ import AmaranthVerif.Model.Sexp
 import AmaranthVerif.Model.Memory
 import AmaranthVerif.Spec.MemoryRows
 import AmaranthVerif.Model.MemoryRename
+import AmaranthVerif.Model.MemQueue
 
 /-!
 # Driver for C11 (`amodel_c11`): one request per line, one response per line (unverified I/O glue)
@@ -259,6 +260,17 @@ def respond (line : String) : String :=
   | some (.list [.atom "merge", v, m, o]) =>
     match v.toInt?, m.toInt?, o.toInt? with
     | some v, some m, some o => toString (pyMerge v m o)
+    | _, _, _ => "error bad-request"
+  | some (.list (.atom "mq" :: w :: .atom sg :: .list rows :: ops)) =>
+    -- `_PyMemoryState`: `write` calls in order, then `commit()`; `(op addr value mask|none)`
+    let parseOp : Sexp → Option QOp
+      | .list [.atom "op", a, v, .atom "none"] => do some ⟨← a.toNat?, ← v.toInt?, none⟩
+      | .list [.atom "op", a, v, m] => do some ⟨← a.toNat?, ← v.toInt?, some (← m.toInt?)⟩
+      | _ => none
+    match w.toNat?, Sexp.ints? rows, ops.mapM parseOp with
+    | some w, some rows, some ops =>
+      let r := runOps ⟨w, sg == "s"⟩ rows ops
+      s!"mq rows={commas r.1} changed={if r.2 then 1 else 0}"
     | _, _, _ => "error bad-request"
   | some (.list [.atom "repl", g, n, e]) =>
     match g.toNat?, n.toNat?, e.toNat? with
